@@ -23,40 +23,7 @@ class PathCache:
         return self._c[key]
 
 
-def static_callees(prog, eff, fname):
-    """internal (static) functions reachable from fname through direct calls, excluding those on a cycle made of
-    internal functions only: implementation details that may be inlined so that extract-/inline-helper refactorings
-    do not change a verdict.  Only these functions are ever inlined, so a helper that calls an exported function back
-    (an arm of a recursive routine moved into a helper) is safe to inline: the exported call inside it stays opaque."""
-    def internal(c):
-        g = prog.funcs.get(c)
-        return g is not None and g.internal and c != fname
-
-    def on_internal_cycle(c):
-        seen = set()
-        stack = [c]
-        while stack:
-            x = stack.pop()
-            for d in eff.summ[x]["callees"]:
-                if not internal(d):
-                    continue
-                if d == c:
-                    return True
-                if d not in seen:
-                    seen.add(d)
-                    stack.append(d)
-        return False
-    out = set()
-    stack = [fname]
-    while stack:
-        x = stack.pop()
-        for c in eff.summ[x]["callees"]:
-            if internal(c) and c not in out:
-                if on_internal_cycle(c):
-                    continue   # recursive helper: not inlined
-                out.add(c)
-                stack.append(c)
-    return out
+static_callees = P.static_callees
 
 
 def base_of(t):
